@@ -88,13 +88,16 @@ func (a Lin) String() string {
 // linCtx holds the atom naming for one function.
 type linCtx struct {
 	p     *Prog
+	// wrapOK: treat unsigned +,-,* as exact (layout comparisons, where both
+	// sides wrap alike); the bounds engine leaves it false.
+	wrapOK bool
 	names map[ssa.Value]string
 	// rep maps an atom name to one SSA value bearing it.
 	rep map[string]ssa.Value
 }
 
 func (p *Prog) newLin() *linCtx {
-	return &linCtx{p: p, names: map[ssa.Value]string{}, rep: map[string]ssa.Value{}}
+	return &linCtx{p: p, names: map[ssa.Value]string{}, rep: map[string]ssa.Value{}, wrapOK: true}
 }
 
 func isIntType(t types.Type) bool {
@@ -210,6 +213,13 @@ func (lc *linCtx) of(v ssa.Value, d int) Lin {
 	case *ssa.BinOp:
 		if !isIntType(x.Type()) {
 			break
+		}
+		// unsigned arithmetic wraps: kept opaque here; the bounds engine adds
+		// "no wrap ⇒ linear" as a case split (binopFacts)
+		if _, signed := intWidth(x.Type(), 64); !signed && (x.Op == token.ADD || x.Op == token.SUB || x.Op == token.MUL || x.Op == token.SHL) {
+			if !lc.wrapOK {
+				break
+			}
 		}
 		switch x.Op {
 		case token.ADD:
